@@ -131,8 +131,9 @@ class OpAdd(Op):
         target = self.path.parts[-1]
         if isinstance(parent, MutableSequence):
             if obj is UNDEFINED:
-                if target == "-" or target == len(parent):
+                if target == "-" or str(target) == str(len(parent)):
                     # RFC 6902: the index may be equal to the array's length.
+                    # (Pointers built from parts can hold their indices as text.)
                     parent.append(value)
                 else:
                     raise JSONPatchError("index out of range")
